@@ -37,8 +37,8 @@ impl Property for C01 {
     }
     fn config(&self, tier: Tier) -> PropConfig {
         match tier {
-            Tier::Quick => PropConfig { cases: 120_000, max_tape: 200, shards: 8 },
-            Tier::Thorough => PropConfig { cases: 4_000_000, max_tape: 400, shards: 16 },
+            Tier::Quick => PropConfig { cases: 600000, max_tape: 200, shards: 12 },
+            Tier::Thorough => PropConfig { cases: 9600000, max_tape: 400, shards: 16 },
         }
     }
     fn run_case(&self, reg: &Registry, shape: usize, tape: &[u8], st: &mut Stats) -> CaseResult {
